@@ -185,6 +185,7 @@ import BGV
 #print axioms BGV.C13_und_roundtrip
 #print axioms BGV.C13_named_numbering
 #print axioms BGV.C13_named_line
+#print axioms BGV.C13_named_lines
 
 -- C14
 #print axioms BGV.C14_layout
